@@ -241,7 +241,7 @@ def stringform_applies(rnd, tier):
     progs = []
     for t in sorted(dims):
         for d in dims[t]:
-            for fn in ('sum', 'min', 'max', 'mean', 'std'):
+            for fn in ('sum', 'min', 'max', 'mean', 'std', 'median'):
                 args = {'funcs': [{'d': d, 'kind': 'reducer', 'f': fn}],
                         'via': 'reduce_dim'}
                 if t == 'T9' or rnd.random() < 0.5:
@@ -254,8 +254,10 @@ def stringform_applies(rnd, tier):
                         'funcs': [{'d': d, 'kind': 'callable', 'f': fn}],
                         'via': 'convolve_dim'}}]})
     if tier == 'quick':
-        t9 = [p for p in progs if p['templates'] == ['T9']
-              and 'fz' in p['steps'][0]['args']]
+        t9 = [p for p in progs if (p['templates'] == ['T9']
+                                   and 'fz' in p['steps'][0]['args'])
+              or (p['steps'][0]['args']['funcs'][0]['f'] == 'median'
+                  and p['templates'][0] in ('T2', 'T7', 'T4'))]
         rest = [p for p in progs if p not in t9]
         progs = rnd.sample(rest, min(len(rest), 70)) + t9
     return progs
